@@ -55,6 +55,10 @@ MODELS += [
     ('parameters("Membrane", g=0.3, e=-60.0)\nparameters("Cap", Cm=2.0)\nstates("Membrane", V=-80.0)\nstates("Cap", q=0.1)\n'
      'expressions("Membrane")\nileak = g*(V - e)\ndV_dt = -ileak + q\n'
      'expressions("Cap")\ni_cap = Cm*dV_dt\nzz = i_cap*2 + ileak\ndq_dt = -q + i_cap + zz\n'),
+    # the consumer needs two intermediates of the producer whose alphabetical order (act < zeta) is the reverse of their evaluation order
+    ('parameters("Prod", k=2.0)\nparameters("Cons", c=0.5)\nstates("Prod", p=1.0)\nstates("Cons", q=0.3)\n'
+     'expressions("Prod")\nzeta = k*p + 1\nact = zeta*zeta - p\ndp_dt = -act\n'
+     'expressions("Cons")\ndq_dt = -c*q + act - zeta\n'),
     # two missing variables, one of them read only by an intermediate nothing depends on
     ('parameters("A", a=0.5)\nstates("A", x=1.0)\nstates("B", ca=0.2, v=-1.0)\n'
      'expressions("A")\nmon_only = a*ca\ndx_dt = -a*x + v\n'
